@@ -235,13 +235,29 @@ impl SDJWTHolder {
             match (claim_to_disclose, sd_jwt_claims) {
                 (Value::Bool(true), Value::Object(sd_jwt_claims)) => {
                     if let Some(Value::String(digest)) = sd_jwt_claims.get(SD_LIST_PREFIX) {
-                        hash_to_disclosure
-                            .push(self.sd_jwt_engine.hash_to_disclosure[digest].to_owned());
+                        hash_to_disclosure.push(
+                            self.sd_jwt_engine
+                                .hash_to_disclosure
+                                .get(digest)
+                                .ok_or(Error::InvalidState(
+                                    "Requested claim doesn't exist".to_string(),
+                                ))?
+                                .to_owned(),
+                        );
                     }
+                }
+                (Value::Bool(false) | Value::Null, _) => {
+                    // skip unrevealed
                 }
                 (claim_to_disclose, Value::Object(sd_jwt_claims)) => {
                     if let Some(Value::String(digest)) = sd_jwt_claims.get(SD_LIST_PREFIX) {
-                        let disclosure = self.sd_jwt_engine.hash_to_decoded_disclosure[digest]
+                        let disclosure = self
+                            .sd_jwt_engine
+                            .hash_to_decoded_disclosure
+                            .get(digest)
+                            .ok_or(Error::InvalidState(
+                                "Requested claim doesn't exist".to_string(),
+                            ))?
                             .as_array()
                             .ok_or(Error::ConversionError("json array".to_string()))?;
                         match (claim_to_disclose, disclosure.get(1)) {
